@@ -7,6 +7,9 @@ CONSTANTS
   MaxReload = 3
   MaxRestart = 2
   MaxScrape = 0
+  FileSel = {1, 2, 3}
+  FlowSel = {1, 2, 3, 4}
+  MaxCollect = 6
   GenDepth = 22
 INVARIANTS Emit Accept
 CHECK_DEADLOCK FALSE
